@@ -106,6 +106,7 @@ class Prim(Contract):
     modifies: tuple = ()
     params: tuple = ()
     props = ("C01", "C03", "C06", "C07", "C08", "C09", "C11")
+    raise_props = ("C11",)
 
     def __init__(self, W=None):
         self.W = W
@@ -195,12 +196,12 @@ class Prim(Contract):
         if out[0] == "raise":
             nm = exc_names(out[1])
             allowed = OR(*[g for e, g in cases if e in nm])
-            ctx.oblige(f"{q}/raises:only-when-specified({nm[0]})", allowed, props=("C11",), kind="raise")
-            ctx.oblige(f"{q}/on-raise:no-mutation", z3.BoolVal(ctx.ghost["muts"] == s0.muts), props=("C11",), kind="raise",
+            ctx.oblige(f"{q}/raises:only-when-specified({nm[0]})", allowed, props=self.raise_props, kind="raise")
+            ctx.oblige(f"{q}/on-raise:no-mutation", z3.BoolVal(ctx.ghost["muts"] == s0.muts), props=self.raise_props, kind="raise",
                        note=f"log={[x[0] for x in ctx.ghost['log']]}")
             return out
         for e, gd in cases:
-            ctx.oblige(f"{q}/raises:{e}-whenever-specified", z3.Not(gd), props=("C11",), kind="raise")
+            ctx.oblige(f"{q}/raises:{e}-whenever-specified", z3.Not(gd), props=self.raise_props, kind="raise")
         s1 = C.Snap(W, I)
         for lbl, f, props in self.ensures(W, s0, s1, env):
             ctx.oblige(f"{q}/ensures:{lbl}", f, props=props)
@@ -490,6 +491,7 @@ class DeleteNodeC(Prim):
 class UpdateNodeAttrsC(Prim):
     cls_qual = f"{ACT}.update_node_attrs.UpdateNodeAttrs"
     modifies = ("A",)
+    raise_props = ("C11", "C10")
 
     def symbolic_args(self, I, W):
         return [W.tracks, Sym(I.ctx.fresh("node", Int)), SymDict.fresh(I.ctx, "uattrs", Key, Val)], {}
